@@ -3,7 +3,7 @@
     ("cacheable under the cluster name" is a flag of discovery.Result that the model does not carry; the check
     asserts it on the implementation's results through [res_spec].) *)
 From Xds Require Import Model.Base Model.Fqdn Model.Proto Model.Decode Model.DecodeCheck Model.Pick Model.Route Model.Mw Model.Sys Model.SysCheck.
-From Xds Require Import Proofs.MwProofs Proofs.SweepProofs.
+From Xds Require Import Proofs.MwProofs Proofs.SweepProofs Proofs.ResolveProofs.
 Open Scope string_scope.
 
 (** A successful resolution returns exactly the endpoints of the cluster's load assignment - the inline one if
@@ -55,6 +55,33 @@ Print Assumptions C10_resolves_the_cache.
 Theorem C10_resolving_keeps_cache : forall c o s d, s_cache (fst (step c o s (OResolve d))) = s_cache s.
 Proof. exact resolve_keeps_cache. Qed.
 Print Assumptions C10_resolving_keeps_cache.
+
+(** Over update histories, stated without reference to any state: after ANY history (of any length) of
+    subscriptions, lookups, responses of every type, stream failures and earlier resolutions, resolving [d] returns
+    [resolve] applied to the FOLDS of that history - the cluster [d] as last accepted ([cl_view]) and the endpoint
+    set it names as last accepted ([ep_view]); [expected_resolution] is the statement the check evaluates on the
+    implementation's results. *)
+Theorem C10_resolution_of_history : forall c o pre d, forallb hist_op pre = true ->
+  o_lookup (snd (step c o (final c o pre) (OResolve d))) = Some (LResolved (expected_resolution c o pre d)).
+Proof. exact resolution_of_history. Qed.
+Print Assumptions C10_resolution_of_history.
+
+Theorem C10_cluster_is_fold : forall c o pre d, forallb hist_op pre = true ->
+  aget d (tget TCl (s_cache (final c o pre))) = kv_val (cl_view c o pre d).
+Proof. exact cluster_is_fold. Qed.
+Theorem C10_endpoints_are_fold : forall c o pre e, forallb hist_op pre = true ->
+  aget e (tget TEp (s_cache (final c o pre))) = kv_val (ep_view c o pre e).
+Proof. exact endpoints_are_fold. Qed.
+Print Assumptions C10_endpoints_are_fold.
+
+Theorem C10_history_example :
+  let c := {| sc_nds_required := false; sc_f := {| f_ns := "default"; f_dom := "cluster.local" |} |} in
+  let o := mk_oracle [] [] [] in
+  let cl n svc := RGood {| cl_name := n; cl_type := Some 3; cl_lb := 0; cl_eds_service := svc; cl_outlier := None; cl_load := None |} in
+  let ep n addr := RGood {| cla_name := n; cla_localities := [[{| lbe_sock := Some {| sa_addr := addr; sa_port := 80 |}; lbe_weight := Some 3 |}]] |} in
+  let h := [OResolve "c1"; OResp "1" "n1" (PCds [cl "c1" (Some "svc")]); OResolve "c1"; OResp "1" "m1" (PEds [ep "svc" "10.0.0.1"; ep "other" "10.0.0.9"])] in
+  expected_resolution c o h "c1" = Some [("10.0.0.1:80", 3%N)].
+Proof. exact C10_history_example_proof. Qed.
 
 (** the executable statement evaluated on the implementation holds of the model's own result *)
 Theorem C10_spec_of_model : forall cl eds desc,
